@@ -141,9 +141,21 @@ fn execute_branch_for_set_op<'a>(
                     let right_keys: std::collections::HashSet<Vec<u64>> =
                         right_rows.iter().map(row_to_key).collect();
                     if set_op.all {
+                        // bag semantics: a row occurs min(left, right) times
+                        let mut right_counts: std::collections::HashMap<Vec<u64>, usize> =
+                            std::collections::HashMap::new();
+                        for row in &right_rows {
+                            *right_counts.entry(row_to_key(row)).or_insert(0) += 1;
+                        }
                         left_rows
                             .into_iter()
-                            .filter(|row| right_keys.contains(&row_to_key(row)))
+                            .filter(|row| match right_counts.get_mut(&row_to_key(row)) {
+                                Some(n) if *n > 0 => {
+                                    *n -= 1;
+                                    true
+                                }
+                                _ => false,
+                            })
                             .collect()
                     } else {
                         let mut seen: std::collections::HashSet<Vec<u64>> =
@@ -161,9 +173,21 @@ fn execute_branch_for_set_op<'a>(
                     let right_keys: std::collections::HashSet<Vec<u64>> =
                         right_rows.iter().map(row_to_key).collect();
                     if set_op.all {
+                        // bag semantics: every right occurrence cancels one left occurrence
+                        let mut right_counts: std::collections::HashMap<Vec<u64>, usize> =
+                            std::collections::HashMap::new();
+                        for row in &right_rows {
+                            *right_counts.entry(row_to_key(row)).or_insert(0) += 1;
+                        }
                         left_rows
                             .into_iter()
-                            .filter(|row| !right_keys.contains(&row_to_key(row)))
+                            .filter(|row| match right_counts.get_mut(&row_to_key(row)) {
+                                Some(n) if *n > 0 => {
+                                    *n -= 1;
+                                    false
+                                }
+                                _ => true,
+                            })
                             .collect()
                     } else {
                         let mut seen: std::collections::HashSet<Vec<u64>> =
